@@ -58,6 +58,22 @@ func hasBigUint(v reflect.Value, depth int) bool {
 // along the given path.  It returns the reconstruction.
 var lastRefusal error
 
+// skipForeignFinding: case functions are shared between properties (C15 runs
+// the C11/C13 pipelines under sanitizer builds).  A case hitting a recorded
+// known finding of the owning property tells the borrowing property nothing.
+func skipForeignFinding(c *run.C, owner string, tags []string) bool {
+	if c.Prop == owner {
+		return false
+	}
+	for _, t := range tags {
+		if t == "ubjson-uint-above-maxint64-typed" {
+			c.Observe("skipped_known_finding_of_"+owner, 1)
+			return true
+		}
+	}
+	return false
+}
+
 func roundTripGo(c *run.C, t reflect.Type, v reflect.Value, path string) (recon reflect.Value, refused bool, ok bool) {
 	target := reflect.New(t)
 	var u *gotype.Unfolder
@@ -110,6 +126,9 @@ func c11Generated(c *run.C) {
 	tags := typeTags(t)
 	if path == "ubjson" && hasBigUint(v, 0) {
 		tags = append(tags, "ubjson-uint-above-maxint64-typed")
+	}
+	if skipForeignFinding(c, "C11", tags) {
+		return
 	}
 	c.Begin(goCase{Type: t.String(), Value: valueString(v), How: path, Tags: tags})
 	for _, tg := range tags {
@@ -168,6 +187,9 @@ func c11Primitive(c *run.C) {
 	var tags []string
 	if path == "ubjson" && hasBigUint(v, 0) {
 		tags = append(tags, "ubjson-uint-above-maxint64-typed")
+	}
+	if skipForeignFinding(c, "C11", tags) {
+		return
 	}
 	c.Begin(goCase{Type: t.String(), Value: valueString(v), How: path, Tags: tags})
 	for _, tg := range tags {
